@@ -164,6 +164,18 @@ func init() {
 						}})
 				}
 			}
+			// change-directed: literals the working tree has and the pinned tree has not, as extra letters
+			if na := newAtoms(4); len(na) > 0 {
+				for _, state := range c14States {
+					for _, q := range c14Quotes {
+						state, q := state, q
+						atoms := append(append([]string{}, na...), "a", "0", string(q), "\\")
+						sp = append(sp, fw.Space{Name: fmt.Sprintf("new-literals-%s-%U", state, q), N: countStrings(len(atoms), 6),
+							Run:  func(c *fw.Ctx, i int64) { c14Run(c, state, q, strings.Join(lexemesByIndex(atoms, i), "")) },
+							Repr: func(i int64) string { return fmt.Sprintf("%s quote state, quote %q, string %q (letters incl. literals new in the working tree: %q)", state, string(q), strings.Join(lexemesByIndex(atoms, i), ""), na) }})
+					}
+				}
+			}
 			hl := 3
 			for _, state := range c14States {
 				state := state
@@ -191,7 +203,10 @@ func init() {
 
 // ---- one long-lived quote state used with several quote characters (differential against fresh states)
 
-var c14HistStrings = []string{"a", "it's", "say \"hi\"", "”x”", "''", "\"\"", "'a''b'", "\"a\"\"b\""}
+var c14HistStrings = []string{"a", "it's", "say \"hi\"", "”x”", "''", "\"\"", "'a''b'", "\"a\"\"b\"",
+	// one inner text (24 and 70 bytes) holding both kinds of doubled quotes, wrapped in each quote character
+	"'He said \"\"hi\"\" it''s ok'", "\"He said \"\"hi\"\" it''s ok\"",
+	"'" + strings.Repeat("ab''c\"\"d ", 7) + "'", "\"" + strings.Repeat("ab''c\"\"d ", 7) + "\""}
 
 type c14Op struct {
 	enc  bool
